@@ -56,6 +56,10 @@ Inductive case :=
            RoundState.Height afterwards; RoundState.LastCommit afterwards: 0 nil, 1 MakeCommit() equals
            the stored seen commit of the state's last block (height, round, block id, every
            signature slot), 2 anything else, 3 not observed *)
+        (bids : Z * Z * Z)
+        (* the whole BlockID (hash + part-set header, numbered as block ids) stored for
+           first.Height: in the block meta, in the seen commit, and State.LastBlockID after
+           executing the block; -1 = nothing stored, 999 = a BlockID nobody made *)
 (* one whole sync of a live reactor against scripted peers *)
 | CScen (canon : list Z)           (* canonical ids, heights 1.. *)
         (start : Z)                (* blocks the node had at the start *)
@@ -135,8 +139,9 @@ Definition rq_view (pl : pool isig) (h : Z) : Z * bool :=
 Definition check_step vals chain st_h (first : Z * Z * bool) canon (cm : Z * Z * Z) base sigs p1 p2
            (comp : rest * rest * N)
            (obs : bool * Z * list Z * (Z * bool) * (Z * bool) * N)
-           (sw : Z * N * Z * N) : list verdict :=
+           (sw : Z * N * Z * N) (bids : Z * Z * Z) : list verdict :=
   let '(ih, sres, sh, lcc) := sw in
+  let '(mid, sid, lid) := bids in
   let '(fh, fid, vok) := first in
   let '(ch, cr, cb) := cm in
   let '(rl, rf, ctv) := comp in
@@ -179,6 +184,9 @@ Definition check_step vals chain st_h (first : Z * Z * bool) canon (cm : Z * Z *
   [ (* clause 1: stored => a commit with valid signatures of > 2/3 of the state's validator set
        for exactly first's id, one slot per validator, and ValidateBlock passed *)
     viol (negb saved || (same_len && enough && vok)) 1;
+    (* ... and what is stored for that height carries exactly the block's own id (hash AND
+       part-set header): block meta, seen commit, LastBlockID of the saved state *)
+    viol (negb saved || ((mid =? fid) && (sid =? fid) && (lid =? fid))) 1;
     (* clause 2: stored => it is the canonical block of that height *)
     viol (negb saved || (fid =? canon)) 2;
     (* clause 3: not stored => both suppliers stopped, both requests re-opened, height unchanged *)
@@ -377,8 +385,8 @@ Definition check_pool (start : Z) (ops : list pop) (snap : psnap) : list verdict
 
 Definition check (c : case) : verdict :=
   match c with
-  | CStep vals chain st_h first canon cm base sigs p1 p2 comp obs sw =>
-    first_of (check_step vals chain st_h first canon cm base sigs p1 p2 comp obs sw)
+  | CStep vals chain st_h first canon cm base sigs p1 p2 comp obs sw bids =>
+    first_of (check_step vals chain st_h first canon cm base sigs p1 p2 comp obs sw bids)
   | CHand vals0 vals1 chain ih h0 h1 seen0 seen1 verified obs =>
     first_of (check_hand vals0 vals1 chain ih h0 h1 seen0 seen1 verified obs)
   | CScen canon start stored tip peers nbad switched ho sc =>
